@@ -59,6 +59,22 @@ def run(ck: Check) -> None:
                          {"request": r.case.op + " " + proto.enc(case.args[0])[:1500], "authorized": case.args[1], "threshold": case.meta["thr"],
                           "mode": case.tag, "oracle_count": case.meta["count"], "entry_states": case.meta["states"]},
                          "unsound:" + case.tag)
+    # the same envelopes when the diagnostics cannot be printed (stdout full, a broken pipe, closed, absent): whatever the library then does with the
+    # failed print, it may not accept what it otherwise rejects
+    from .. import impl
+    for (case, want, c) in batch[:: (1 if ck.thorough else 2)]:
+        if want == "OK" or not isinstance(c["env"].get("signatures"), dict) or not c["env"]["signatures"]:
+            continue
+        for mode in ("broken:full", "broken:closed", "broken:none", "broken:pipe"):
+            out = impl.run_case(case.op, case.args, mode)
+            ck.evaluations += 1
+            ck.oracle_checks += 1
+            ck.count("stdout-" + mode + ":" + out[:14])
+            if out == "OK":
+                ck.violation("accepted without threshold-many valid authorized signers when the diagnostics could not be printed",
+                             {"request": case.op + " " + proto.enc(case.args[0])[:1500], "authorized": case.args[1], "threshold": case.meta["thr"], "mode": case.tag,
+                              "stdout": mode, "oracle_count": case.meta["count"], "entry_states": case.meta["states"]}, "unsound-broken-stdout:" + case.tag)
+                break
     # soundness of what is built on it: delegation and root verification accept only with the trusted rule met
     rng = ck.rng
     dcases = []
@@ -77,6 +93,11 @@ def run(ck: Check) -> None:
     res = ck.run_cases([d[0] for d in dcases], "corr:verify_delegation/outcome-class")
     for (case, met), r in zip(dcases, res):
         ck.oracle_checks += 1
+        if not met and r.case.group % 2 == 0:
+            for mode in ("broken:full", "broken:closed"):
+                if impl.run_case(case.op, case.args, mode) == "OK":
+                    ck.violation("delegation accepted without the trusted role's threshold of valid authorized signers when the diagnostics could not be printed",
+                                 {"role": case.args[0], "untrusted": proto.enc(case.args[1])[:1500], "stdout": mode}, "unsound-broken-stdout:" + case.tag)
         if r.impl == "OK" and not met:
             ck.violation("delegation accepted without the trusted role's threshold of valid authorized signers",
                          {"role": case.args[0], "untrusted": proto.enc(case.args[1])[:1500], "trusted": proto.enc(case.args[2])[:800], "mode": case.tag,
